@@ -370,7 +370,7 @@ func (P *Prog) checkDecodeFailure(r *Result) {
 		if len(problems) > 0 {
 			r.bad("C15/decode-failure", sp.fn, P.pos(fn.Pos()), strings.Join(uniqSorted(problems), "; "))
 		} else {
-			r.ok("C15/decode-failure", sp.fn, P.pos(fn.Pos()), fmt.Sprintf("%d failing path(s) return (nil, %s issue); %d success path(s) return (provider, nil)", nFail, sp.code))
+			r.ok("C15/decode-failure", sp.fn, P.pos(fn.Pos()), fmt.Sprintf("%d failing path(s) return (nil, %s issue); %d success path(s) return (provider, nil)", nFail, sp.code, nOK))
 		}
 	}
 	// pipelines: factory error -> exactly one issue, no child, no destination write
